@@ -58,7 +58,12 @@ uint32_t x_verif_oracle_dec2double(uint64_t man, uint32_t exp10u, uint64_t bits)
   for (int i = 0; i < 350; i++) { if (i < (E > 0 ? E : 0)) lhs = lhs * 10; }
   for (int i = 0; i < 350; i++) { if (i < (E < 0 ? -E : 0)) { rhs = rhs * 10; half = half * 10; } }
   ll_big L = lhs * 2, R = rhs * 2, H = half;
-  if (e2 >= 0) { R = R << e2; H = H << e2; } else { L = L << (-e2); }
+  /* within one window of 2^W mantissas the binary exponent takes at most two values; they are job parameters 6 and 7
+     (computed exactly by the check), so the shifts below are by constants.  Any other exponent is wrong by construction. */
+  int k1 = (int)LL_PARAMS[6], k2 = (int)LL_PARAMS[7];
+  if (e2 == k1) { if (k1 >= 0) { R = R << k1; H = H << k1; } else { L = L << (-k1); } }
+  else if (e2 == k2) { if (k2 >= 0) { R = R << k2; H = H << k2; } else { L = L << (-k2); } }
+  else return 0;
   ll_big diff = L > R ? L - R : R - L;
   if (diff > H) return 0;
   if (diff == H && (m & 1) != 0) return 0;
